@@ -707,6 +707,10 @@ class Interp:
             s2 = st.fork()
             s2.out = s2.out + (One(v),)
             res.append((s2, Raised(ExcVal("GeneratorExit", {}, origin="yield"))))
+            if self.ctx.config.get("throw_at_yield"):
+                s3 = st.fork()
+                s3.out = s3.out + (One(v),)
+                res.append((s3, Raised(ExcVal("AnyException", {}, origin="thrown-into-yield"))))
         return res
 
     # ---- loops --------------------------------------------------------------
